@@ -105,6 +105,59 @@ func classifyDeath(stderr string) (string, string) {
 	lines := strings.Split(stderr, "\n")
 	start := 0
 	for i, l := range lines {
+		if strings.HasPrefix(l, "cpu limit: ") {
+			// the frontend was still running at the CPU-time limit.  Two stack samples were taken three CPU-seconds
+			// apart; the frames they share (from the entry point inwards) end at the loop that does not terminate
+			stackOf := func(ls []string) []string {
+				var fns []string
+				started := false
+				for _, fl := range ls {
+					fl = strings.TrimSpace(fl)
+					if strings.HasPrefix(fl, "goroutine ") {
+						if started && len(fns) > 0 {
+							break
+						}
+						started = true
+						continue
+					}
+					if !strings.HasPrefix(fl, "github.com/DDP-Projekt/Kompilierer/") {
+						continue
+					}
+					fn := strings.TrimPrefix(fl, "github.com/DDP-Projekt/Kompilierer/")
+					if k := strings.LastIndex(fn, "("); k > 0 {
+						fn = fn[:k]
+					}
+					if k := strings.LastIndex(fn, "/"); k >= 0 {
+						fn = fn[k+1:]
+					}
+					fns = append(fns, fn)
+				}
+				// outermost first
+				for a, z := 0, len(fns)-1; a < z; a, z = a+1, z-1 {
+					fns[a], fns[z] = fns[z], fns[a]
+				}
+				return fns
+			}
+			common := stackOf(lines[i:])
+			for k := 0; k < i; k++ {
+				if strings.HasPrefix(lines[k], "cpu sample:") {
+					e := k + 1
+					for e < i && !strings.HasPrefix(lines[e], "cpu sample:") {
+						e++
+					}
+					smp := stackOf(lines[k:e])
+					n := 0
+					for n < len(smp) && n < len(common) && smp[n] == common[n] {
+						n++
+					}
+					common = common[:n]
+				}
+			}
+			if len(common) > 3 {
+				common = common[len(common)-3:]
+			}
+			return l, "hang|" + strings.Join(common, ">")
+		}
 		if strings.HasPrefix(l, "fatal error: ") || strings.HasPrefix(l, "panic: ") || strings.HasPrefix(l, "runtime: goroutine stack exceeds") {
 			if strings.HasPrefix(l, "runtime: goroutine stack exceeds") {
 				head = "fatal error: stack overflow"
@@ -292,7 +345,7 @@ func (p *Pool) RunIsolated(job *fwproto.Job, cpuSeconds int) fwproto.Result {
 	r := w.runOne(job, 0)
 	if r.Died == "killed without message (signal)" && cpuSeconds > 0 {
 		r.Died = fmt.Sprintf("did not return within %d CPU-seconds", cpuSeconds)
-		r.DiedFn = "hang"
+		r.DiedFn = "hang|"
 	}
 	return r
 }
